@@ -15,16 +15,24 @@ TermsOf(ev) ==
 \* a primitive is read as its boxed class here (the implementation represents both by one class; C06 makes no claim about primitives)
 RECURSIVE Box(_)
 Box(t) == [k |-> IF t.k = "P" THEN "C" ELSE t.k, n |-> t.n, a |-> [j \in DOMAIN t.a |-> Box(t.a[j])]]
+BoxSeq(s) == [j \in DOMAIN s |-> Box(s[j])]
+BoxEv(ev) ==
+  CASE ev.kind \in {"find_subtypes", "find_irrelevant"} -> [ev EXCEPT !.T = Box(@), !.res = BoxSeq(@)]
+    [] ev.kind = "instantiate" -> [ev EXCEPT !.outs = [o \in DOMAIN @ |-> [args |-> BoxSeq(@[o].args), map |-> [x \in DOMAIN @[o].map |-> Box(@[o].map[x])]]],
+                                             !.pre = [x \in DOMAIN @ |-> Box(@[x])],
+                                             !.tps = [j \in DOMAIN @ |-> [n |-> @[j].n, v |-> @[j].v, b |-> BoxSeq(@[j].b)]]]
+    [] OTHER -> ev
 Judgeable(CT, ev) == \A t \in TermsOf(ev) : KnownT(CT, t)
 EvBad(CT, ev) ==
   CASE ev.kind = "is_subtype" ->
-         IF SubTop(CT, AsType(CT, Box(ev.S)), Box(ev.T)) THEN {}
+         \* (a projection is not a type of its own: "out A below out B" is read as containment)
+         IF (IF ev.T.k = "W" THEN ContX(CT, Box(ev.S), Box(ev.T), "inv", TRUE) ELSE SubTop(CT, AsType(CT, Box(ev.S)), Box(ev.T))) THEN {}
          ELSE {<<"is_subtype.Sound", IF TextualDiffers(CT, ev.S) \/ TextualDiffers(CT, ev.T) THEN "TextualSupertypes" ELSE "plain">>}
     [] ev.kind = "unify" ->
-         IF UnifierOK(CT, ev.t1, ev.t2, ev.sigma, ev.same) THEN {}
+         IF UnifierOK(CT, Box(ev.t1), Box(ev.t2), [x \in DOMAIN ev.sigma |-> Box(ev.sigma[x])], ev.same) THEN {}
          ELSE {<<"unify.Unifier", IF PolarityClash(ev.t1, ev.t2) THEN "PolarityClash"
                                    ELSE IF ~ev.same /\ ev.t1.k = "C" /\ ~Ground(ev.t1) THEN "OpenTargetSupertypeMode" ELSE "plain">>}
-    [] OTHER -> BadEvent(CT, ev)
+    [] OTHER -> BadEvent(CT, BoxEv(ev))
 EvReport == LET ev == Cases[c].events[e]  CT == Cases[c].ct IN
             IF ~Judgeable(CT, ev) THEN PrintT(ToJson([case |-> Cases[c].id, event |-> e, skipped |-> TRUE, bad |-> {}]))
             ELSE LET b == EvBad(CT, ev) IN b = {} \/ PrintT(ToJson([case |-> Cases[c].id, event |-> e, skipped |-> FALSE, bad |-> b]))
